@@ -31,6 +31,7 @@ import (
 	"github.com/google/certificate-transparency-go/internal/verifkit"
 	"github.com/google/certificate-transparency-go/loglist3"
 	"github.com/google/certificate-transparency-go/trillian/ctfe"
+	"github.com/google/certificate-transparency-go/trillian/integration"
 	ctfeconfigpb "github.com/google/certificate-transparency-go/trillian/ctfe/configpb"
 	"github.com/google/trillian"
 	"github.com/google/trillian/crypto/keys"
@@ -328,6 +329,16 @@ func TestVerifC18(t *testing.T) {
 				}
 			}
 		}
+		// 4. the helper the integration tests and the hammer use to pick a NotAfter that a sharded log must admit
+		if lo != nil && up != nil && cmpT(*lo, *up) < 0 {
+			na, naErr := integration.NotAfterForLog(&ctfeconfigpb.LogConfig{NotAfterStart: ts(lo), NotAfterLimit: ts(up)})
+			out.Count("class:not-after-for-log")
+			if naErr != nil {
+				out.Fail(key, "integration.NotAfterForLog refuses an ordered window: "+naErr.Error())
+			} else if !inWin(lo, up, na) {
+				out.Fail(key, fmt.Sprintf("integration.NotAfterForLog picks %s, which is outside start<=t<limit", ns(na)))
+			}
+		}
 		op := fmt.Sprintf("win %s %s %s %s", optStr(lo), optStr(up), ns(tt), ns(sub))
 		out.T(op, a+" "+rt+" "+c)
 		if want {
@@ -458,6 +469,47 @@ func TestVerifC18(t *testing.T) {
 				out.Count("class:list-routed")
 				if cnt != 1 || which != idx {
 					out.Fail(key, fmt.Sprintf("routed to %d but %d shard windows contain the instant (last %d)", idx, cnt, which))
+				}
+			}
+		}
+		// later lookups on the SAME client object: routing keeps no memory (the second and third answers obey the same windows)
+		if err == nil {
+			for extra := 0; extra < 3; extra++ {
+				var w2 time.Time
+				jj := r.Intn(k)
+				switch r.Intn(4) {
+				case 0:
+					if ups[k-1] != nil {
+						w2 = ups[k-1].Add(time.Duration(r.Intn(3)) * time.Hour) // at or beyond the end of the whole span
+					} else {
+						w2 = when.Add(time.Hour)
+					}
+				case 1:
+					if los[0] != nil {
+						w2 = los[0].Add(-time.Duration(1+r.Intn(3)) * time.Nanosecond) // just before the span
+					} else {
+						w2 = when.Add(-time.Hour)
+					}
+				case 2:
+					if los[jj] != nil {
+						w2 = *los[jj]
+					} else {
+						w2 = when
+					}
+				default:
+					w2 = base.Add(time.Duration(r.I64n(int64(1200 * time.Hour))))
+				}
+				idx2, ierr2 := tlc.IndexByDate(reloc(r, w2))
+				cnt2, which2 := 0, -1
+				for i := 0; i < k; i++ {
+					if inWin(los[i], ups[i], w2) {
+						cnt2++
+						which2 = i
+					}
+				}
+				out.Count("class:later-lookup-same-client")
+				if (ierr2 == nil) != (cnt2 == 1) || (ierr2 == nil && idx2 != which2) {
+					out.Fail(key+keyExtra, fmt.Sprintf("lookup #%d on the same client: t=%s routed to %d (err=%v) but %d window(s) contain it (shard %d)", extra+2, ns(w2), idx2, ierr2, cnt2, which2))
 				}
 			}
 		}
